@@ -6,6 +6,7 @@ import (
 	"math/rand"
 	"os"
 	"path/filepath"
+	"strings"
 
 	"tags.cncf.io/container-device-interface/pkg/cdi"
 	specs "tags.cncf.io/container-device-interface/specs-go"
@@ -55,7 +56,7 @@ func (namesStream) Generate(rng *rand.Rand, tier string, emit func(Case)) {
 		dirs := dirLayouts[rng.Intn(len(dirLayouts))]
 		emit(Case{"op": "write", "vendor": hx(v), "class": hx(cl), "id": hx(id), "ext": hx(ext), "transient": rng.Intn(4) != 0,
 			"reldirs": hxList(dirs), "lastmissing": rng.Intn(3) == 0, "preexisting": rng.Intn(3) == 0, "clutter": rng.Intn(2) == 0,
-			"thenremove": true})
+			"thenremove": true, "history": i%2 == 1})
 	}
 }
 
@@ -133,7 +134,27 @@ func (namesStream) Execute(c Case) {
 				}
 			}
 		}
-		cache, _ := cdi.NewCache(cdi.WithSpecDirs(dirs...), cdi.WithAutoRefresh(false))
+		var cache *cdi.Cache
+		if hist, _ := c["history"].(bool); hist {
+			// the cache has a past: it was used with other directories (a Spec written there and removed again), a
+			// write into a directory that cannot be created has failed, then it was given the directories of this case
+			prev := []string{filepath.Join(namesRoot, "prev-etc"), filepath.Join(namesRoot, "prev-last")}
+			cache, _ = cdi.NewCache(cdi.WithSpecDirs(prev...), cdi.WithAutoRefresh(false))
+			_ = cache.WriteSpec(namesSpec("prev.com", "old"), "prev.yaml")
+			_ = cache.RemoveSpec("prev.yaml")
+			_ = os.WriteFile(filepath.Join(namesRoot, "blocked"), []byte("a file, not a directory"), 0o644)
+			_ = cache.Configure(cdi.WithSpecDirs(filepath.Join(namesRoot, "blocked", "sub")))
+			big := namesSpec("failed.com", "write")
+			big.Devices[0].ContainerEdits.Env = []string{"NEVER=written", "PAD=" + strings.Repeat("f", 3000)}
+			_ = cache.WriteSpec(big, "never.yaml")
+			_ = cache.WriteSpec(big, "never.json")
+			_ = os.Remove(filepath.Join(namesRoot, "blocked"))
+			_ = os.RemoveAll(filepath.Join(namesRoot, "prev-etc"))
+			_ = os.RemoveAll(filepath.Join(namesRoot, "prev-last"))
+			_ = cache.Configure(cdi.WithSpecDirs(dirs...))
+		} else {
+			cache, _ = cdi.NewCache(cdi.WithSpecDirs(dirs...), cdi.WithAutoRefresh(false))
+		}
 		if pre, _ := c["preexisting"].(bool); pre && !lastMissing {
 			_ = cache.WriteSpec(namesSpec(vendor, class), name)
 		}
